@@ -264,7 +264,7 @@ def _shrink(acc, tier, budget):
 def plan(tier):
     mix = ["gen", "plan", "adv", "soup", "gen", "adv", "plan", "gen"]
     if tier == "quick":
-        return [{"kind": k, "i": i, "n": 800} for i, k in enumerate(mix)]
+        return [{"kind": k, "i": i, "n": 1500} for i, k in enumerate(mix)]
     shards = []
     for rep in range(4):
         shards += [{"kind": k, "i": rep * 8 + i, "n": 8000} for i, k in enumerate(mix)]
@@ -278,8 +278,17 @@ def work(shard, seed, tier):
     strat = st.tuples(st.just(kind), st.sampled_from([0, 0, 1, 1, 2, 3, 4]),
                       st.sampled_from([0.0, 0.03, 0.1, 0.3]), st.integers(0, 2 ** 62))
 
+    hangs = [0]
+
     def execute(v):
-        return execute_case(make_case(*v))
+        if hangs[0] >= 4:       # non-termination is established; every further hang costs 5 s of CPU
+            acc.budget_hit = True
+            acc.note("campaign of a shard stopped early after 4 non-terminating builds")
+            return Outcome([], nontrivial=False, classes=["skipped-after-hangs"], key=("skipped", v[3]))
+        out = execute_case(make_case(*v))
+        if any(sig.startswith("Hang@") for sig, _ in out.failures):
+            hangs[0] += 1
+        return out
 
     campaign(acc, strat, execute, shard["n"], seed * 1000 + shard["i"], to_case=lambda v: make_case(*v),
              budget=budget, shrink=False)
